@@ -37,6 +37,13 @@ def PlainNode (content : Text) (v : Node) : Prop :=
   ∃ pre body post, content = pre ++ body ++ post ∧ byteLen pre = v.sb ∧ v.eb = byteLen pre + byteLen body ∧
     (∀ c ∈ body, c ≠ '\n') ∧ lineOf pre = v.info.sr ∧ colOf pre 0 = v.info.sc
 
+/-- `PackageInfo::is_on_one_line`: false only when the range (where it fits the document) contains a line break, or the
+    text between `start − column` and `start` does (the range starts on a later line than the reported one) -/
+def onOneLine (content : Text) (column so eo : Nat) : Bool :=
+  let spans := match slice content so eo with | some t => t.any (· == '\n') | none => false
+  let later := if column ≤ so then (match slice content (so - column) so with | some b => b.any (· == '\n') | none => false) else false
+  !spans && !later
+
 /-- `PackageInfo::utf16_span`: column and width of the version range in UTF-16 code units, computed from the text of the
     line before the range and the text of the range; `none` when the offsets do not fit the document -/
 def utf16Span (content : Text) (column so eo : Nat) : Option (Nat × Nat) :=
